@@ -88,7 +88,7 @@ fn rkey(r: &ReadRow) -> String {
     format!("{}.{}", r.view, r.accessor)
 }
 
-pub const N_PRIORS: usize = 14;
+pub const N_PRIORS: usize = 17;
 
 /// Field names with a documented alias, per view (DEP-3: "Author or From", "Description or Subject").  A header may carry
 /// either name - or both - for each of them, in any combination.
@@ -132,6 +132,11 @@ pub fn prior_doc(r: &Row, prior: usize) -> Option<String> {
             (Some(b), Some(a)) => Some(format!("{}{}", b, f.replacen(r.field, a, 1))),
             _ => None,
         },
+        // the field present once in another accepted spelling: no blank after the colon, a tab, the value starting on a
+        // continuation line (each with another field behind it)
+        14 => Some(format!("{}{}X-Other: keep\n", r.base, f.replacen(": ", ":", 1))),
+        15 => Some(format!("{}{}X-Other: keep\n", r.base, f.replacen(": ", ":\t", 1))),
+        16 => Some(format!("{}{}X-Other: keep\n", r.base, f.replacen(": ", ":\n ", 1))),
         _ => None,
     }
 }
